@@ -23,3 +23,37 @@ PROPS["C15"] = dict(
                  105: "== is semantic equality", 106: "(a-b)+b == a per implementation", 107: "contains is component-wise >=",
                  108: "expression round trip"},
 )
+
+SELECT_TB = TB_COMMON + [
+    "UtxoStore is a trait of the embedding application: the model assumes narrow_refs(by_address) = UTxOs at that address, narrow_refs(by_asset) = UTxOs holding a positive amount, fetch_utxos = the stored UTxOs with those references (the harness store implements exactly this)",
+    "hash-set iteration orders and the f64 distance sort are oracle arguments (any order); the traced orders come from the cfg(tx3_verif) hook tx3_resolver::verif",
+]
+
+PROPS["C03"] = dict(
+    level="proof",
+    runner="C03",
+    model_files=["Base.v", "Assets.v", "Select.v"],
+    proof_files=["Assets_proofs.v", "Select_proofs.v"],
+    check_files=["C03_check.v"],
+    theorems=["C03_constraints", "C03_meets_is_address_and_ref", "C03_single", "C03_many_covers",
+              "C03_single_complete", "C03_many_complete", "C03_window"],
+    partial=["completeness is proved for pick_single / pick_many over the candidate list they receive; that every candidate of the property (address/ref/token match, not taken, within the window) reaches that list through narrow_search_space + take is checked per case (clause 107), not yet a theorem"],
+    trusted_base=SELECT_TB,
+    assumptions=["UTxO amounts and min_amount are non-negative", "stores hold at most 50 UTxOs (the property's window)"],
+    check_names={101: "selected UTxOs exist in the store", 102: "from/ref constraints", 103: "single input: one UTxO covering min_amount alone",
+                 104: "multi input: sum covers min_amount", 105: "collateral is pure lovelace", 106: "UTxO taken by an earlier block",
+                 107: "reported unresolved although a candidate (set) covers min_amount"},
+)
+
+PROPS["C04"] = dict(
+    level="proof",
+    runner="C04",
+    model_files=["Base.v", "Assets.v", "Select.v"],
+    proof_files=["Assets_proofs.v", "Select_proofs.v"],
+    check_files=["C03_check.v"],
+    theorems=["C04_selections_disjoint", "C04_ignore_invariant", "C04_no_reuse_fails"],
+    partial=["the flattening of the selections into the body's input list (compile_inputs) is checked on the implementation's output (sum of sizes = distinct refs), not yet modelled"],
+    trusted_base=SELECT_TB,
+    assumptions=["input blocks of one transaction have distinct lower-cased names (see DESIGN 5.4)"],
+    check_names={106: "a UTxO is bound to two input blocks"},
+)
